@@ -9,6 +9,7 @@ import (
 
 	of "github.com/contiv/libOpenflow/openflow13"
 	"github.com/contiv/libOpenflow/util"
+	verifrt "github.com/contiv/libOpenflow/verifrt"
 
 	"verif/bind"
 	"verif/corpus"
@@ -32,7 +33,28 @@ type subject struct {
 	kind  string
 	fresh func() (v lenEnc, wrap func() lenEnc, decode func(b []byte) (any, error))
 	isMsg bool
-	rep   any
+	// viaStream adds the operation S: the value is sent through a MessageStream's writer
+	viaStream bool
+	rep       any
+}
+
+// bufferSubject is a pre-encoded message held in a util.Buffer (the stream and packet-out accept any
+// util.Message): raw is what the buffer holds.
+func bufferSubject(name string, raw []byte) *subject {
+	return &subject{name: name, kind: "util.Buffer", isMsg: true, viaStream: true, rep: map[string]any{"buffer_hex": fmt.Sprintf("%x", raw), "buffer": name},
+		fresh: func() (lenEnc, func() lenEnc, func([]byte) (any, error)) {
+			b := util.NewBuffer(append([]byte{}, raw...))
+			return b, func() lenEnc {
+					po := of.NewPacketOut()
+					po.Header.Xid = 0x33440000
+					po.Data = b
+					return po
+				}, func(x []byte) (any, error) {
+					d := new(util.Buffer)
+					err := d.UnmarshalBinary(x)
+					return d, err
+				}
+		}}
 }
 
 func obsL(v lenEnc) (s string) {
@@ -75,12 +97,42 @@ func obsD(v lenEnc, decode func([]byte) (any, error)) (s string) {
 	return dump.Dump(d, dump.Options{Normalise: true})
 }
 
+// streamSend hands m to the Outbound channel of a real MessageStream (on a scripted connection, run
+// under the controlled scheduler with its default schedule) and returns what the stream wrote.
+func streamSend(m util.Message) (s string) {
+	defer func() {
+		if p := recover(); p != nil {
+			s = fmt.Sprintf("panic: %v", p)
+		}
+	}()
+	conn := &scriptConn{}
+	e := &verifrt.Explorer{Bound: 0, MaxSteps: 2000}
+	e.Body = func() {
+		ms := util.NewMessageStream(conn, ofParser{})
+		verifrt.GoNamed("producer", func() { verifrt.Send(ms.Outbound, m) })
+	}
+	x := e.RunOne(nil)
+	if e.HarnessErr != nil {
+		return "harness error: " + e.HarnessErr.Error()
+	}
+	for _, evn := range x.Events {
+		return "event: " + evn.Kind + " " + evn.Detail
+	}
+	var wr []byte
+	for _, w := range conn.written {
+		wr = append(wr, w...)
+	}
+	return fmt.Sprintf("%x", wr)
+}
+
 func runOps(s *subject, ops string) []string {
 	v, wrap, decode := s.fresh()
 	var w lenEnc
 	out := make([]string, len(ops))
 	for i, op := range ops {
 		switch op {
+		case 'S':
+			out[i] = streamSend(v.(util.Message))
 		case 'L':
 			out[i] = obsL(v)
 		case 'M':
@@ -100,6 +152,9 @@ func runOps(s *subject, ops string) []string {
 func c13Subject(r *ev.Run, s *subject, depth int) int64 {
 	ref := map[rune]string{}
 	alpha := "LMWD"
+	if s.viaStream {
+		alpha = "LMWDS"
+	}
 	for _, op := range alpha {
 		ref[op] = runOps(s, string(op))[0]
 	}
@@ -119,7 +174,7 @@ func c13Subject(r *ev.Run, s *subject, depth int) int64 {
 			r.Add("transitions", int64(len(prefix)))
 			for i, op := range prefix {
 				if obs[i] != ref[op] {
-					what := map[rune]string{'L': "reported size", 'M': "encoding", 'W': "size/encoding through the enclosing wrapper", 'D': "decoded value"}[op]
+					what := map[rune]string{'L': "reported size", 'M': "encoding", 'W': "size/encoding through the enclosing wrapper", 'D': "decoded value", 'S': "byte string the stream writes for it"}[op]
 					r.Violation(fmt.Sprintf("history-dependent-%c:%s", op, s.kind),
 						fmt.Sprintf("after the operations %s on %s the %s is %s; on a fresh instance it is %s", prefix[:i], s.name, what, clip(obs[i]), clip(ref[op])),
 						map[string]any{"ops": prefix, "subject": s.rep})
@@ -347,6 +402,42 @@ func c13(r *ev.Run, replay string) {
 	corpus.Switch(false, r.Expired, func(string, bool) {}, func(n *wire.N) {
 		run(msgSubject(n, bind.Hist{}), 2)
 	})
+	// the stream's writer is one more container that sizes and encodes what it is given: one message of
+	// every root kind, and pre-encoded util.Buffer values (with a header length that matches their
+	// size, one that does not, and bytes that are no OpenFlow message at all), with the operation S
+	seenRoot := map[string]bool{}
+	var viaStream int64
+	streamOne := func(n *wire.N) {
+		if seenRoot[rootSig(n)] || modelSize(n) > 4000 {
+			return
+		}
+		sb := msgSubject(n, bind.Hist{})
+		if v, _, _ := sb.fresh(); v == nil {
+			return
+		}
+		seenRoot[rootSig(n)] = true
+		sb.viaStream = true
+		viaStream++
+		run(sb, depth)
+	}
+	corpus.Controller(false, r.Expired, func(string, bool) {}, streamOne)
+	corpus.Switch(false, r.Expired, func(string, bool) {}, streamOne)
+	echo := []byte{4, 2, 0, 8, 0, 0, 0, 9}
+	for _, bs := range []struct {
+		name string
+		raw  []byte
+	}{
+		{"echo request, pre-encoded", echo},
+		{"echo request followed by 20 more bytes (header length 8, 28 bytes held)", append(append([]byte{}, echo...), corpus.Payload(20)...)},
+		{"header announcing 64 bytes, 16 held", []byte{4, 2, 0, 64, 0, 0, 0, 9, 1, 2, 3, 4, 5, 6, 7, 8}},
+		{"21 bytes that are no OpenFlow message", corpus.Payload(21)},
+		{"empty buffer", nil},
+	} {
+		viaStream++
+		run(bufferSubject(bs.name, bs.raw), depth)
+	}
+	r.Set("subjects_sent_through_the_stream", viaStream)
+	r.Completed(fmt.Sprintf("one message of every root kind and 5 pre-encoded util.Buffer values: all sequences of length <= %d over L,M,W,D,S (S = sent through a MessageStream's writer)", depth))
 	np, ns := c13Packets(r, depth)
 	subjects += np
 	seqs += ns
